@@ -270,6 +270,14 @@ func (in *Interp) native(fv *FuncV, args []Value, at token.Pos) []Value {
 		return []Value{nil}
 	case "path.Base":
 		return []Value{path.Base(str(args[0]))}
+	case "path.Split":
+		d, f := path.Split(str(args[0]))
+		return []Value{d, f}
+	case "path/filepath.Split":
+		d, f := filepath.Split(str(args[0]))
+		return []Value{d, f}
+	case "path.Ext":
+		return []Value{path.Ext(str(args[0]))}
 	case "path.IsAbs":
 		return []Value{path.IsAbs(str(args[0]))}
 	case "path/filepath.Clean":
